@@ -352,9 +352,10 @@ def defs_of(mod: Any) -> Dict[str, Any]:
     return {st[1]: st for st in mod['stmts'] if st[0] in ('class', 'def', 'var')}
 
 
-def reexports(case: Any) -> List[Dict[str, Any]]:
+def reexports(case: Any, kept: bool = False) -> List[Dict[str, Any]]:
     """Statically: (R, D, x, n) such that module R imports x from project module D at module level as n (by name or by
-    star), lists n in its __all__, D defines x and does not list it in its own __all__."""
+    star), lists n in its __all__, D defines x and does not list it in its own __all__.
+    With kept=True: the same but D DOES list x in its own __all__ (the object is to stay where it is defined)."""
     fn = fullnames(case)
     idx = {n: i for i, n in enumerate(fn)}
     out = []
@@ -378,7 +379,7 @@ def reexports(case: Any) -> List[Dict[str, Any]]:
                 pub = alld if alld is not None else [x for x in ddefs if not x.startswith('_')]
                 pairs = [(x, x, 'star') for x in pub]
             for x, n, how in pairs:
-                if n in allr and x in ddefs and not (alld is not None and x in alld):
+                if n in allr and x in ddefs and (not (alld is not None and x in alld)) != kept:
                     out.append({'R': r, 'D': d, 'x': x, 'n': n, 'how': how})
     return out
 
